@@ -27,3 +27,11 @@ chk("C06", "E1", "exploration",
     "deterministic simulation: real relay registry vs exact sequential registry model in settled ('calm') runs, interval-based safety oracle in racing runs, final per-id probe",
     "Seeded exploration of register/close/error/disconnect/send histories over up to 4 ids with duplicate connections. Calm runs compare every health/peer-gone notice count and disconnect() return value with an exact reference model after each op; racing runs check each notice against definitely-alive intervals; every run ends with a probe per id that must arrive exactly on the newest open connection.",
     "Notices dropped because a (tiny) queue is full are only possible in racing runs, where only safety (no spurious notice) is asserted.")
+chk("C33", "E2", "exploration",
+    "deterministic simulation: cooperative thread scheduler with switch points at every atomic load/CAS, scripted wall clock (stuck, backwards, jumps), spurious CAS failures, happens-before oracle",
+    "Seeded exploration of 2..4 threads calling the real Timestamp::now concurrently under a scheduler that owns every interleaving of the atomic operations, with adversarial clock readings; oracle: all values pairwise distinct and ordered consistently with return-before-invoke.",
+    "Sequentially consistent executions only (no relaxed-memory reordering); clock near u64::MAX not generated; runs are serial because LAST_TIMESTAMP is process-global.")
+chk("C43", "E2", "exploration",
+    "deterministic simulation: op sequences over aliased RelayMap handles under the cooperative scheduler with wait-for deadlock detection, BTreeMap reference model",
+    "Seeded exploration of insert/remove/extend/with_auth_token/==/get/len sequences over a pool of maps containing clones that share storage; each result and the full contents of every map are compared with a BTreeMap model per alias class after every step; a lock that can never be acquired is reported by the scheduler as a deadlock.",
+    "Single caller thread; lock interception via the cfg(iroh_verif) RwLock shim wrapping std::sync::RwLock.")
